@@ -32,6 +32,7 @@ type Check struct {
 	Workers    int                                    // 0 = 16
 	Run        func(c *Ctx)                           // executed in every worker
 	Replay     func(c *Ctx, r json.RawMessage) string // re-execute one recorded case; returns the violated clause or ""
+	Flows      []flowOracle                           // oracles this property applies to the canonical call flows (zz_flows.go); run after Run
 	Race       bool                                   // needs the -race build (informational for bin/check)
 	RaceRun    func(c *Ctx)                           // executed in every worker of the -race build (schedule exploration under the race detector)
 	Finalize   func(c *Ctx, merged *Result)           // parent-side cross-shard checks (optional)
@@ -385,6 +386,9 @@ func runWorker(id, tier string, i, n int, out string) int {
 			}
 		} else {
 			ck.Run(c)
+			if len(ck.Flows) > 0 {
+				RunFlows(c, ck.Flows...)
+			}
 		}
 	}()
 	vrt.CurrentCase = ""
@@ -803,6 +807,14 @@ func runReplay(path string) int {
 	var sc SchedCase
 	if f, ok := schedReplays[rf.Property]; ok && json.Unmarshal(rf.Case, &sc) == nil && sc.Scenario != "" {
 		replay = func(c *Ctx, raw json.RawMessage) string { return f(sc) }
+	}
+	if len(ck.Flows) > 0 {
+		if _, isFlow := ReplayFlow(rf.Case, ck.Flows...); isFlow {
+			replay = func(c *Ctx, raw json.RawMessage) string {
+				cl, _ := ReplayFlow(raw, ck.Flows...)
+				return cl
+			}
+		}
 	}
 	c1 := replay(c, rf.Case)
 	c2 := replay(c, rf.Case)
